@@ -65,7 +65,10 @@ def run(ctx):
                 'views: generated ResultDicts (0..17 repetitions, 1..5 keys, 1..3 instances per key, 0..70 qubits, bool/uint8/int64 '
                 'binary and mixed-radix digits) observed through measurements, data frame, histogram (default, fold_base int/list, '
                 'custom folds), multi_measurement_histogram (key subsets in any order), +, repetitions, JSON packing; '
-                'non-trivial = >=2 repetitions, >=2 qubits, rows not all equal. sampler: fake samplers on the base class '
+                'non-trivial = >=2 repetitions, >=2 qubits, rows not all equal. large: results on both sides of the histogram '
+                'batch size (fixed grid 50000, 50001, 60000 = 30000 + 30000, 100001 repetitions plus random sizes; bit, wide (40..70 bits) '
+                'and mixed-radix keys whose rows come from an arithmetic generator that the model re-runs) seen through every view, '
+                'r1 + r2 and JSON; _vectorized_histogram with batch sizes 1..5 on the small results. sampler: fake samplers on the base class '
                 '(sync-only, async-only) and ZerosSampler through run/run_async/sample/run_sweep/run_batch(_async); '
                 'distinct by canonical input')
     ctx.assumptions += ['vf/checks/c18.py adapters calling Cirq and canonicalising outputs',
@@ -79,6 +82,8 @@ def run(ctx):
         for shard in range(0, n, 160):
             views_stream(ctx, cirq, min(160, n - shard), shard)
         sampler_stream(ctx, cirq, 60 if q else 600)
+        large_stream(ctx, cirq, LARGE_GRID + [ctx.rng.randint(50_002, 140_000) for _ in range(1 if q else 8)]
+                     + ([150_000, 200_001] if not q else []), wide_at=(1,) if q else (1, 4, 7, 10))
     except Exception:
         import traceback
         ctx.mark_broken('harness-exception', traceback.format_exc()[-2000:])
@@ -341,6 +346,24 @@ def npy_payload(hexstr):
     return buf.read()
 
 
+def str_spells_records(text, recs):
+    """str(result): one line per key (sorted) and instance, one digit string per qubit running over the repetitions."""
+    parsed = {}
+    for line in text.split('\n'):
+        kname, _, body = line.partition('=')
+        cols = [(tok.split(' ') if ' ' in tok else list(tok)) for tok in body.split(', ')]
+        parsed.setdefault(kname, []).append(cols)
+    ok_s = sorted(parsed) == sorted(recs) and list(parsed) == sorted(recs)
+    for kname, a in recs.items():
+        inst_cols = parsed.get(kname, [])
+        ok_s = ok_s and len(inst_cols) == a.shape[1]
+        for j, cols in enumerate(inst_cols[:a.shape[1]]):
+            ok_s = ok_s and len(cols) == a.shape[2] and all(
+                [int(x) for x in col] == a[:, j, i].astype(np.int64).tolist() for i, col in enumerate(cols) if len(col) == a.shape[0])
+            ok_s = ok_s and all(len(col) == a.shape[0] for col in cols)
+    return bool(ok_s)
+
+
 def views_stream(ctx, cirq, n, shard=0):
     rng = ctx.rng
     R = dict(meas=[], df=[], hist=[], histf=[], multi=[], add=[], json=[])
@@ -421,6 +444,16 @@ def views_stream(ctx, cirq, n, shard=0):
                     numpy_digits_violation(ctx, cirq, recs[k][bad_row, 0], bl, via=f'histogram(key={k!r}, fold_base=...) beyond int64')
                 else:
                     ctx.violation('views:histogram', f'histogram(key={k!r}, mode={mode}) of {desc} = {h}, counting rows gives {exp}', dict(rp, key=k, mode=mode))
+            # -- the vectorised path with an explicit batch size: any positive batch size must give the same counts
+            bsz = rng.choice([1, 2, 3, 5])
+            if mode in ('none', 'int', 'list') and h is not None and exp is not None and binary and hasattr(cirq.Result, '_vectorized_histogram'):
+                fbv = None if mode == 'none' else fb
+                hb = _try(lambda: mk()._vectorized_histogram(key=k, fold_base=fbv, batch_size=bsz))
+                ctx.count('views:histogram:batch_size', [canon_in, k, mode, extra, bsz], nontriv and hb is not None and reps > bsz)
+                if hb is not None and dict(hb) != dict(exp):      # None: the values do not fit an int64
+                    ctx.violation('views:histogram:batch_size', f'_vectorized_histogram(key={k!r}, fold_base={fbv}, batch_size={bsz}) of {desc} = {dict(hb)}, '
+                                  f'counting rows gives {dict(exp)} (counts sum to {sum(hb.values())} for {reps} repetitions)',
+                                  dict(rp, key=k, mode=mode, batch_size=bsz))
         # -- multi-key histograms: subsets in any order (with an occasional repeated or unknown key)
         for _ in range(2):
             pool = list(recs)
@@ -494,20 +527,7 @@ def views_stream(ctx, cirq, n, shard=0):
                               dict(rp, other={k: dict(dtype=str(a.dtype), digits=a.tolist(), shape=list(a.shape)) for k, a in recs2.items()}))
         # -- string form: one line per key (sorted) and instance, one digit string per qubit running over the repetitions
         if recs and all(a.shape[0] > 0 and a.shape[2] > 0 for a in recs.values()):
-            lines = str(mk()).split('\n')
-            parsed = {}
-            for line in lines:
-                kname, _, body = line.partition('=')
-                cols = [(tok.split(' ') if ' ' in tok else list(tok)) for tok in body.split(', ')]
-                parsed.setdefault(kname, []).append(cols)
-            ok_s = sorted(parsed) == sorted(recs) and list(parsed) == sorted(recs)
-            for kname, a in recs.items():
-                inst_cols = parsed.get(kname, [])
-                ok_s = ok_s and len(inst_cols) == a.shape[1]
-                for j, cols in enumerate(inst_cols[:a.shape[1]]):
-                    ok_s = ok_s and len(cols) == a.shape[2] and all(
-                        [int(x) for x in col] == [int(a[r, j, i]) for r in range(a.shape[0])] for i, col in enumerate(cols) if len(col) == a.shape[0])
-                    ok_s = ok_s and all(len(col) == a.shape[0] for col in cols)
+            ok_s = str_spells_records(str(mk()), recs)
             ctx.count('views:str', canon_in, nontriv, sample=dict(records=desc, text=str(mk())[:300]))
             if not ok_s:
                 ctx.violation('views:str', f'str(result) does not spell the records: {str(mk())!r} for {desc}', rp)
@@ -577,6 +597,268 @@ def views_stream(ctx, cirq, n, shard=0):
                     ctx.cov['model_disagreements_explained_by_known_finding'] = ctx.cov.get('model_disagreements_explained_by_known_finding', 0) + 1
                     continue
             ctx.mark_broken(label, f'model and implementation differ on {str(R[name][idx][:4])[:1500]}')
+
+
+# ------------------------------------------------------------------ results on both sides of the histogram batch size
+# Rows of a large record are produced by an arithmetic generator over a small table of digit rows:
+#   row(r) = table[(a*r*r + b*r + c) mod (m0 + r div step)]
+# so later repetitions reach table entries that earlier ones cannot (batches differ), the sequence is not periodic, and the
+# model can rebuild the same 10^5 rows from a handful of numbers instead of a literal.
+LARGE_GRID = [50_000, 50_001, 60_000, 100_001]
+COQ_LARGE = """
+(* the generator, segment by segment: inside a segment the modulus m is fixed and the quadratic is advanced by its
+   first and second differences, all kept reduced mod m (same values as the closed form the harness uses) *)
+Definition red (x m : Z) : Z := if x <? m then x else x - m.
+Fixpoint gen_seg (fuel : nat) (x d e m : Z) (table : list (list Z)) (rest : list (list (list Z))) : list (list (list Z)) :=
+  match fuel with
+  | O => rest
+  | S f => [nth (Z.to_nat x) table []] :: gen_seg f (red (x + d) m) (red (d + e) m) e m table rest
+  end.
+Fixpoint gen_rows (segs : nat) (r0 n a b c m0 step : Z) (table : list (list Z)) : list (list (list Z)) :=
+  match segs with
+  | O => []
+  | S s => if n <=? r0 then [] else
+           let m := m0 + r0 / step in
+           gen_seg (Z.to_nat (Z.min step (n - r0))) ((a * r0 * r0 + b * r0 + c) mod m) ((a * (2 * r0 + 1) + b) mod m) ((2 * a) mod m) m
+                   table (gen_rows s (r0 + step) n a b c m0 step table)
+  end.
+Definition gen_rec (n a b c m0 step : Z) (nq : nat) (table : list (list Z)) : rec :=
+  mkRec 1 nq (gen_rows (Z.to_nat (n / step + 1)) 0 n a b c m0 step table).
+(* r[:k] and r[k:] of every record *)
+Definition res_slice (cut : list (list (list Z)) -> list (list (list Z))) (r : result) : result :=
+  map (fun kr => (fst kr, mkRec (r_inst (snd kr)) (r_nq (snd kr)) (cut (r_data (snd kr))))) r.
+"""
+LARGE_NAMES = dict(bits='b', qudit='q(0, 1)', wide='out')
+
+
+def gen_large_key(rng, n, kind):
+    step = rng.choice([20_000, 30_000, 45_000])
+    m0 = rng.randint(2, 5)
+    tlen = m0 + (n - 1) // step + 1
+    if kind == 'bits':
+        nq = rng.choice([1, 2, 3, 4])
+        bases, dtype = [2] * nq, rng.choice(['bool', 'uint8', 'int8', 'int64'])
+    elif kind == 'wide':
+        nq = rng.choice([40, 62, 63, 63, 64, 70])       # up to 63 bits the vectorised path is taken, beyond it the generic one
+        bases, dtype = [2] * nq, rng.choice(['bool', 'uint8', 'int8'])
+    else:
+        nq = rng.choice([2, 3, 4])
+        bases = [rng.choice([2, 3, 4, 5, 7]) for _ in range(nq)]
+        bases[rng.randrange(nq)] = rng.choice([3, 5])          # never all binary, usually asymmetric
+        dtype = rng.choice(['uint8', 'int8', 'int64'])
+    skew = rng.choice([0.2, 0.5, 0.8])
+    table = [[(1 if rng.random() < skew else 0) if b == 2 else rng.randrange(b) for b in bases] for _ in range(tlen)]
+    if tlen >= 3 and rng.random() < 0.5:            # two table entries with the same row: an outcome reached two ways
+        table[tlen - 1] = list(table[0])
+    return dict(kind=kind, nq=nq, bases=bases, dtype=dtype, a=rng.randint(1, 97), b=rng.randint(0, 997), c=rng.randint(0, 997),
+                m0=m0, step=step, table=table)
+
+
+def gen_large_case(rng, n, with_wide):
+    kinds = ['qudit', 'bits'] + (['wide'] if with_wide else [])
+    rng.shuffle(kinds)
+    keys = collections.OrderedDict((LARGE_NAMES[kd], gen_large_key(rng, n, kd)) for kd in kinds)
+    q = keys[LARGE_NAMES['qudit']]
+    calls = [('b', 'none', None), ('b', 'int', rng.choice([2, 3])), ('b', 'func', rng.choice(sorted(FOLDS))),
+             ('q(0, 1)', 'list', [x + rng.choice([0, 0, 2]) for x in q['bases']]),
+             ('q(0, 1)', 'int', max(q['bases']) + rng.choice([0, 1]))]
+    if with_wide:       # fold_base beyond 63 bits goes digit by digit through big_endian_digits_to_int (0.2 ms per row): small streams only
+        calls += [('out', 'none', None)] + ([('out', 'int', 2)] if keys['out']['nq'] <= 63 else [])
+    return dict(n=n, split=(n // 2 if n % 1000 == 0 else rng.randint(1, n - 1)), keys=keys, calls=calls,
+                multi=[(['q(0, 1)', 'b'], 'default'), (['b'], rng.choice(['cat', 'sums']))])
+
+
+def large_idx(ks, n, start=0):
+    r = np.arange(start, start + n, dtype=np.int64)
+    return (ks['a'] * r * r + ks['b'] * r + ks['c']) % (ks['m0'] + r // ks['step'])
+
+
+def large_counter(idx, vals):
+    """Counter of vals[i] over the table indices idx (counting rows, outcome by outcome)."""
+    c = collections.Counter()
+    for i, m in enumerate(np.bincount(idx, minlength=len(vals)).tolist()):
+        if m:
+            c[vals[i]] += m
+    return c
+
+
+def large_call(res, key, mode, arg):
+    if mode == 'none':
+        return res.histogram(key=key)
+    if mode == 'func':
+        return res.histogram(key=key, fold_func=FOLDS[arg])
+    return res.histogram(key=key, fold_base=arg)
+
+
+def large_vals(ks, mode, arg):
+    """The value the histogram call must count for each table row (positional notation / the named fold)."""
+    if mode == 'none':
+        return [spec_int([1 if d else 0 for d in row]) for row in ks['table']]
+    if mode == 'func':
+        return [FOLDS[arg](row) for row in ks['table']]
+    bl = [arg] * ks['nq'] if isinstance(arg, int) else list(arg)
+    return [spec_int(row, bl) for row in ks['table']]
+
+
+def large_python(ctx, cirq, case):
+    """Specification-level oracles on one large result; returns what the model needs for the correspondence."""
+    n, keys = case['n'], case['keys']
+    idx = {k: large_idx(ks, n) for k, ks in keys.items()}
+    recs = collections.OrderedDict((k, np.array(ks['table'], dtype=ks['dtype'])[idx[k]][:, np.newaxis, :]) for k, ks in keys.items())
+    pr = cirq.ParamResolver({'p': 0.25})
+    mk = lambda lo=0, hi=n: cirq.ResultDict(params=pr, records={k: a[lo:hi].copy() for k, a in recs.items()})
+    res = mk()
+    shape = {k: dict(shape=list(a.shape), dtype=str(a.dtype), generator={x: ks[x] for x in ('a', 'b', 'c', 'm0', 'step')}, table=ks['table'])
+             for (k, a), ks in zip(recs.items(), keys.values())}
+    rp = dict(kind='large', case=case)
+    ckey = [n, [(k, ks['dtype'], ks['a'], ks['b'], ks['c'], ks['m0'], ks['step'], ks['table']) for k, ks in keys.items()]]
+    big = n > 50_000
+    # -- repetitions, measurements, data frame
+    meas = res.measurements
+    ok = res.repetitions == n and list(meas) == list(recs) and all(np.array_equal(meas[k], recs[k][:, 0, :]) and meas[k].shape == (n, keys[k]['nq']) for k in recs)
+    ctx.count('large:measurements', ckey, big, sample=dict(repetitions=n, records=shape))
+    if not ok:
+        ctx.violation('views:measurements', f'measurements/repetitions of {n} generated repetitions {shape} do not show the records', rp)
+    df = mk().data
+    ctx.count('large:dataframe', ckey, big)
+    for k, ks in keys.items():
+        col = [sum(int(d) << (ks['nq'] - 1 - i) for i, d in enumerate(row)) for row in ks['table']]
+        exp_col = [col[i] for i in idx[k].tolist()]
+        got_col = [int(x) for x in df[k]] if k in df.columns else None
+        if got_col != exp_col or len(df) != n or list(df.columns) != list(recs):
+            bad = None if got_col is None else next((r for r in range(min(n, len(got_col))) if got_col[r] != exp_col[r]), None)
+            ctx.violation('views:dataframe', f'data frame column {k!r} of {n} generated repetitions {shape[k]} differs from the big-endian integers of the rows '
+                          f'(length {len(df)}, first differing repetition {bad})', rp)
+    # -- histograms
+    hist_out = []
+    for (k, mode, arg) in case['calls']:
+        ks = keys[k]
+        vals = large_vals(ks, mode, arg)
+        h = _try(lambda: large_call(mk(), k, mode, arg))
+        exp = large_counter(idx[k], vals)
+        hist_out.append(h)
+        ctx.count('large:histogram', [ckey, k, mode, arg], big and h is not None,
+                  sample=dict(repetitions=n, key=k, mode=mode, arg=arg, record=shape[k], histogram=None if h is None else {str(a): b for a, b in h.items()}))
+        if (None if h is None else dict(h)) != dict(exp):
+            def fails(m):
+                hm = _try(lambda: large_call(mk(0, m), k, mode, arg))
+                return (None if hm is None else dict(hm)) != dict(large_counter(idx[k][:m], vals))
+            lo, hi = 0, n
+            while hi - lo > 1:
+                mid = (lo + hi) // 2
+                lo, hi = (lo, mid) if fails(mid) else (mid, hi)
+            m = hi if fails(hi) else n
+            hm = _try(lambda: large_call(mk(0, m), k, mode, arg))
+            em = large_counter(idx[k][:m], vals)
+            ctx.violation('views:histogram', f'histogram(key={k!r}, mode={mode}, arg={arg}) of the first {m} of {n} generated repetitions {shape[k]} = '
+                          f'{None if hm is None else dict(sorted(hm.items()))} (counts sum to {None if hm is None else sum(hm.values())}), '
+                          f'counting rows gives {dict(sorted(em.items()))} (sum {m})', dict(rp, key=k, mode=mode, arg=arg, prefix=m))
+    # -- multi-key histograms
+    multi_out = []
+    for ks_, mname in case['multi']:
+        kw = {} if mname == 'default' else dict(fold_func=MFOLDS[mname])
+        h = _try(lambda: mk().multi_measurement_histogram(keys=ks_, **kw))
+        f = MFOLDS.get(mname, lambda rows: tuple(spec_int([1 if d else 0 for d in row]) for row in rows))
+        sizes = [len(keys[k]['table']) for k in ks_]
+        joint = np.zeros(n, dtype=np.int64)
+        for k, sz in zip(ks_, sizes):
+            joint = joint * sz + idx[k]
+        exp = collections.Counter()
+        for j, m in enumerate(np.bincount(joint).tolist()):
+            if m:
+                parts = []
+                for sz in reversed(sizes):
+                    parts.append(j % sz)
+                    j //= sz
+                exp[f(tuple(tuple(keys[k]['table'][i]) for k, i in zip(ks_, reversed(parts))))] += m
+        multi_out.append(h)
+        ctx.count('large:multi_histogram', [ckey, ks_, mname], big and h is not None)
+        if (None if h is None else dict(h)) != dict(exp):
+            ctx.violation('views:multi_histogram', f'multi_measurement_histogram(keys={ks_}, fold={mname}) of {n} generated repetitions {shape} = {h}, '
+                          f'counting rows in key order gives {dict(exp)}', dict(rp, keys=ks_, fold=mname))
+    # -- r1 + r2: every view of the sum is the view of the whole
+    sp = case['split']
+    r1, r2 = mk(0, sp), mk(sp, n)
+    tot = _try(lambda: r1 + r2)
+    add_out = []
+    ok = tot is not None and tot == res and tot.repetitions == n and list(tot.records) == list(recs) and all(
+        np.array_equal(np.asarray(tot.records[k]), recs[k]) for k in recs)
+    ctx.count('large:add', [ckey, sp], big)
+    if ok:
+        for (k, mode, arg) in case['calls']:
+            h = _try(lambda: large_call(tot, k, mode, arg))
+            add_out.append(h)
+            if (None if h is None else dict(h)) != dict(large_counter(idx[k], large_vals(keys[k], mode, arg))):
+                ok = False
+                ctx.violation('views:add', f'histogram(key={k!r}, mode={mode}, arg={arg}) of r1 + r2 ({sp} + {n - sp} generated repetitions {shape[k]}) = {h}: '
+                              f'not the counts of the rows of r1 followed by the rows of r2', dict(rp, key=k, mode=mode, arg=arg))
+        if ok and not all([int(x) for x in tot.data[k]] == [int(x) for x in df[k]] for k in recs):
+            ok = False
+    if not ok:
+        ctx.violation('views:add', f'views of r1 + r2 ({sp} + {n - sp} generated repetitions {shape}) are not the views of the concatenated records', rp)
+    # -- JSON storage and string form
+    back = cirq.read_json(json_text=cirq.to_json(res))
+    ctx.count('large:json', ckey, big)
+    if not (back == res and list(back.records) == list(recs) and all(
+            back.records[k].shape == recs[k].shape and back.records[k].dtype == recs[k].dtype and np.array_equal(back.records[k], recs[k]) for k in recs)):
+        ctx.violation('views:json', f'read_json(to_json(r)) != r for {n} generated repetitions {shape}', rp)
+    if sum(a.size for a in recs.values()) > 1_500_000:       # str() of millions of digits takes seconds; the narrow cases cover it
+        return hist_out, multi_out, (add_out if tot is not None and len(add_out) == len(case['calls']) else None)
+    ctx.count('large:str', ckey, big)
+    if not str_spells_records(str(mk()), recs):
+        ctx.violation('views:str', f'str(result) does not spell the records of {n} generated repetitions {shape}', rp)
+    return hist_out, multi_out, (add_out if tot is not None and len(add_out) == len(case['calls']) else None)
+
+
+def large_coq_text(case, outs, kid):
+    hist_out, multi_out, add_out = outs
+    n, sp, keys = case['n'], case['split'], case['keys']
+    Z, ZL = coq.zlit, coq.zlist
+    text = ('From Coq Require Import ZArith List Bool.\nFrom VF Require Import Base.Digits Base.Harness Codec.ResultViews.\n'
+            'Import ListNotations.\nOpen Scope Z_scope.\n' + COQ_FOLDS + COQ_LARGE)
+    text += 'Definition whole : result := [' + '; '.join(
+        f'({kid[k]}, gen_rec {n} {ks["a"]} {ks["b"]} {ks["c"]} {ks["m0"]} {ks["step"]} {ks["nq"]}%nat {zll(ks["table"])})'
+        for k, ks in keys.items()) + '].\n'
+    zc = lambda c: counter_lit(c, Z)
+    lc = lambda c: counter_lit(c, ZL)
+    def call(r, k, mode, arg, h):
+        if mode == 'func':
+            return f'opt_eqb lc_eqb (histogram_fold zl_eqb {r} {kid[k]} (fold_named {FOLD_IDS[arg]}%nat)) {coq.opt(h, lc)}'
+        fb = 'BaseNone' if mode == 'none' else (f'(BaseInt {Z(arg)})' if isinstance(arg, int) else f'(BaseList {ZL(arg)})')
+        return f'opt_eqb zc_eqb (histogram {r} {kid[k]} {fb}) {coq.opt(h, zc)}'
+    checks = [f'Nat.eqb (repetitions r) (Z.to_nat {n})']
+    checks += [call('r', k, mode, arg, h) for (k, mode, arg), h in zip(case['calls'], hist_out)]
+    checks += [f'opt_eqb lc_eqb (multi_hist zl_eqb r {ZL([kid[k] for k in ks_])} (mfold_named {MFOLD_IDS[mname]}%nat)) {coq.opt(h, lc)}'
+               for (ks_, mname), h in zip(case['multi'], multi_out)]
+    if add_out is None:
+        checks.append('match result_add r1 r2 with None => true | Some _ => false end')
+    else:
+        checks.append('opt_eqb res_eqb (result_add r1 r2) (Some r)')
+        checks += ['match result_add r1 r2 with Some t => ' + call('t', k, mode, arg, h) + ' | None => false end'
+                   for (k, mode, arg), h in zip(case['calls'], add_out)]
+    labels = (['repetitions'] + [f'histogram{c}' for c in case['calls']] + [f'multi_histogram{m}' for m in case['multi']]
+              + ['add'] + ([] if add_out is None else [f'add;histogram{c}' for c in case['calls']]))
+    text += ('Eval vm_compute in (let r := whole in let r1 := res_slice (firstn (Z.to_nat ' + str(sp) + ')) r in let r2 := res_slice (skipn (Z.to_nat ' + str(sp) + ')) r in failing (fun x : bool => x) [\n  '
+             + ';\n  '.join(checks) + ']).\n')
+    return text, labels
+
+
+def large_stream(ctx, cirq, sizes, wide_at):
+    kid = {k: i for i, k in enumerate(KEY_NAMES)}
+    items, metas = [], []
+    for ci, n in enumerate(sizes):
+        case = gen_large_case(ctx.rng, n, with_wide=(ci in wide_at))
+        outs = large_python(ctx, cirq, case)
+        text, labels = large_coq_text(case, outs, kid)
+        items.append((f'c18_large_{ctx.seed}_{ci}', text))
+        metas.append((case, labels))
+    for (case, labels), out in zip(metas, coq.coq_eval_many(items, workers=3)):
+        vals = coq.parse_evals(out)
+        assert len(vals) == 1, vals
+        for idx in coq.parse_nat_list(vals[0]):
+            ctx.mark_broken('correspondence:large:' + labels[idx].split('(')[0].split(';')[0],
+                            f'model and implementation differ on {labels[idx]} of the generated result n={case["n"]} split={case["split"]} '
+                            f'{ {k: {x: ks[x] for x in ("a", "b", "c", "m0", "step", "table", "dtype")} for k, ks in case["keys"].items()} }')
 
 
 # ------------------------------------------------------------------ sampler defaults
@@ -809,6 +1091,16 @@ def replay(ctx, data):
         back = cirq.read_json(json_text=cirq.to_json(mk()))
         ok = ok and back == mk() and all(back.records[kk].shape == recs[kk].shape for kk in recs)
         return ok
+    if k == 'large':
+        case = data['case']
+        case['keys'] = collections.OrderedDict(case['keys'])
+        case['calls'] = [tuple(c) for c in case['calls']]
+        case['multi'] = [tuple(m) for m in case['multi']]
+        sub = runner.Ctx('C18', 'quick', data.get('seed', 0), LEVEL)
+        large_python(sub, cirq, case)
+        for v in sub.violations:
+            print(v['what'][:500])
+        return not sub.violations
     if k == 'sampler':
         sub = runner.Ctx('C18', 'quick', data.get('seed', 0), LEVEL)
         sampler_stream(sub, cirq, 60)
